@@ -287,7 +287,9 @@ DOC_SENTS = ["Aaaa bbbb cccc dddd.", "Ee ff.", "Gggggggggg hhhhhhhhhh iiiiiiiiii
              # appended later: sentences that START with a multi-word atomic construct
              "[A link with text](u) is here.", "`pip install x` runs now.", "{% t a=\"b c\" %} ends here.",
              # appended later: a sentence end followed by a closing quote / bracket that is set off by a space
-             "\u00ab Bonjour tous et bienvenue. \u00bb", "( down at the very bottom. )", "\u201c it was all quite fine. \u201d", "' so they all said then. '"]
+             "\u00ab Bonjour tous et bienvenue. \u00bb", "( down at the very bottom. )", "\u201c it was all quite fine. \u201d", "' so they all said then. '",
+             # appended later: a soft break in front of a word that looks like block syntax but is ordinary text there
+             "Mm nn oo pp back in\n2019. Qq rr.", "Ss tt uu vv ww\n| xx yy zz."]
 
 
 class Docs(Space):
